@@ -11,6 +11,10 @@ applied to the entire text) computed by the Lean driver from the same line.
 """
 import os
 import re
+import shutil
+import subprocess
+import tempfile
+from concurrent.futures import ThreadPoolExecutor
 
 from .. import build, run
 from ..core import Case, Check, log
@@ -90,6 +94,8 @@ TORTURE = [
     "/* a\n b */c", "/* a */ /* b */", "/* /* */ */", "*/", "/* * / */", '"a\nb"', '"/*"', '/*"*/', '//"\n"', '# "\n"', 'a = b;\n c = d ;\n',
     "x=\"a\n#b\";", "x=1;#c\n#d\n", "if x then\n  y=1; // c\nend if;\n", " ", "  \t", "\v", "a\rb", "a\r\nb", '"a\rb"', '"a\r\nb"', "\r", "\r\n", "a\r",
     "a\r\r\nb", "//c\r\nd", "/*c\r\n*/d", "#c\r\nd", "\xff", "\x80\x81", "a\xe9b", "\x01", "\x7f",
+    # C13R2: the classes of unsafe_split_witnesses not yet present above (every split position of each is generated)
+    "1e+5", "x; #y", "end", "x;\t #y", "a = 1e+5 ;", "0x1F+1.5", "/*x*/y", "u8\"x\";",
 ]
 NUL_TEXTS = ["a\x00b;\nc;", "\x00", "a\x00", "\x00a", '"a\x00b";\n"c"', "/*\x00*/ x\n*/ y", "ab\x00cd\x00ef\ngh"]
 
@@ -102,6 +108,112 @@ FIXED_SIZES = [1, 2, 3, 5, 7, 16, 64, 1023, 1024, 2048]
 
 def crlf(t):
     return t.replace("\n", "\r\n")
+
+
+# ------------------------------------------------------------------ C13R2: every reader, through its real path
+BUF = 1023          # what tokenizer_buf asks of every reader
+
+
+def filler(n, salt=0):
+    """n bytes of non-periodic printable text (decimal counters): losing or doubling ONE byte anywhere changes it."""
+    out, i = [], 1000 + salt
+    while sum(map(len, out)) < n:
+        out.append("%d." % i)
+        i += 7
+    return "".join(out)[:n]
+
+
+def edge_programs(quick):
+    """Valid BLOC programs whose long lines put a token on every multiple of 1023 bytes -> [(name, A, B, expect)].
+    A = the text under test; B = the same tokens on short lines (the whole-text Spec for program BEHAVIOUR: the
+    property says layout does not matter), None when a token itself is longer than the buffer; expect = the output
+    computed here (only for plain literals)."""
+    P = []
+    END = 'print "END";\n'
+
+    def at(k, off, tok, head="print", tail=";"):
+        """one line in which `tok` starts `off` bytes before byte k*BUF of the line"""
+        pad = k * BUF - off - len(head)
+        return head + " " * pad + tok + tail
+
+    NUM = "123456789012"
+    for k in (1, 2):
+        for off in range(0, len(NUM) + 2):
+            if quick and k == 2 and off % 3:
+                continue
+            P.append(("num_k%d_o%d" % (k, off), at(k, off, NUM, head="n =") + "\nprint n;\n" + END, "n = %s;\nprint n;\n" % NUM + END, None))
+    IDN = "v_abcdefgh9"
+    for k in (1, 2):
+        for off in range(0, len(IDN) + 2):
+            if quick and (off % 2 if k == 1 else off % 4):
+                continue
+            P.append(("id_k%d_o%d" % (k, off), IDN + " = 7;\n" + at(k, off, IDN) + "\n" + END, IDN + " = 7;\nprint " + IDN + ";\n" + END, None))
+    # plain literal lines of every length around k*1023 (1020..1026, 2045..2049, 3068..3071): LF, CRLF, no final newline
+    for L in list(range(1020, 1027)) + list(range(2045, 2050)) + list(range(3068, 3072)):
+        body = filler(L - len('print "";'), L)
+        line = 'print "%s";' % body
+        for en, end in (("lf", "\n"), ("crlf", "\r\n"), ("none", "")):
+            if end:
+                P.append(("lit_%d_%s" % (L, en), line + end + END.replace("\n", end), None, body + "\nEND\n"))
+            else:
+                P.append(("lit_%d_none" % L, 'print "BEG";\n' + line, None, "BEG\n" + body + "\n"))
+    # a literal with an escape / doubled quote / backslash pair on the boundary
+    for k in (1, 2):
+        for esc in ('\\"', '""', "\\\\"):
+            lit = '"ab' + esc + 'cd"'
+            for off in (2, 3, 4, 5):
+                if quick and k == 2 and off in (2, 5):
+                    continue
+                P.append(("esc%d_k%d_o%d" % (ord(esc[0]) + ord(esc[1]), k, off), at(k, off, lit) + "\n" + END, "print " + lit + ";\n" + END, None))
+    # two-byte operators
+    for k in (1, 2):
+        for op, ex in (("<=", "1<=2"), ("**", "2**5"), ("==", "3==3"), ("<>", "1<>2"), ("||", "true||false")):
+            for off in (1, 2, 3):
+                if quick and k == 2 and off != 2:
+                    continue
+                P.append(("op%d_k%d_o%d" % (ord(op[0]) * 256 + ord(op[1]), k, off), at(k, off, ex) + "\n" + END, "print " + ex + ";\n" + END, None))
+    # comment delimiters and a `//` comment longer than the buffer
+    for k in (1, 2):
+        for off in (0, 1, 2, 3):
+            P.append(("cmtend_k%d_o%d" % (k, off), "/*" + "c" * (k * BUF - off - 2) + "*/ print 5;\n" + END, "/* c */ print 5;\n" + END, None))
+            P.append(("cmtbeg_k%d_o%d" % (k, off), at(k, off, "/* c */ 6") + "\n" + END, "print /* c */ 6;\n" + END, None))
+        for extra in (-1, 0, 1, 5):
+            P.append(("slash_k%d_%d" % (k, extra), "print 7; //" + "z" * (k * BUF + extra - 11) + "\n" + END, "print 7; // z\n" + END, None))
+    # a multi-line literal whose first line holds exactly 1021..1024 bytes before its line end
+    for n in (1021, 1022, 1023, 1024, 2046):
+        body = filler(n - len('print "'), n)
+        for en, end in (("lf", "\n"), ("crlf", "\r\n")):
+            P.append(("mlit_%d_%s" % (n, en), 'print "' + body + end + 'second";' + end + END.replace("\n", end), None, body + "\nsecond\nEND\n"))
+    # `#` exactly at a chunk start (no token is cut there)
+    for k in (1, 2):
+        P.append(("hash_k%d" % k, "print 8;" + " " * (k * BUF - 8) + "# not a directive\n" + END, None, None))
+        P.append(("hashsp_k%d" % k, "print 8;" + " " * (k * BUF - 10) + "  # not a directive\n" + END, None, None))
+    # degenerate files
+    for nm, t in (("empty", ""), ("nl", "\n"), ("crs", "\r\r\r"), ("crlf_only", "\r\n\r\n"), ("nofinal", 'print "x"'), ("nofinal2", 'print "x";'),
+                  ("short_crlf", 'print "a";\r\nprint "b";\r\n'), ("blank1023", " " * BUF + "\nprint 9;\n"), ("blank1022crlf", " " * 1022 + "\r\nprint 9;\r\n"),
+                  ("line1023x3", ('print "%s";\n' % filler(BUF - 10, 3)) * 3)):
+        P.append(("deg_" + nm, t, None, None))
+    return P
+
+
+def func_body(src, name_re):
+    """text of the body `{ … }` of the first function whose header matches name_re, blanks squeezed"""
+    m = re.search(name_re, src)
+    if not m:
+        return None
+    i = src.find("{", m.end())
+    if i < 0:
+        return None
+    depth, j = 0, i
+    while j < len(src):
+        if src[j] == "{":
+            depth += 1
+        elif src[j] == "}":
+            depth -= 1
+            if depth == 0:
+                break
+        j += 1
+    return re.sub(r"\s+", " ", src[i:j + 1]).strip()
 
 
 class C13(Check):
@@ -167,10 +279,31 @@ class C13(Check):
             self.broken_ties.append("extractor: rule list of tokenizer.lex %r differs from the rule list of the Lean scanner %r" % (
                 [r for r in rules if r not in mine][:5], [r for r in mine if r not in rules][:5]))
         self.stats["lex_rules"] = len(rules)
+        self.check_reader_sources()
 
-    def step_correspondence(self):
-        self.check_rule_list()
-        super().step_correspondence()
+    def check_reader_sources(self):
+        """C13R2: the reader functions the Lean transcriptions (Model/LexReaders.lean: srCall, rfCall, incCall, stdinCall) were
+        written against. The include reader is a private COPY of apps/read_file.cpp: the two bodies must be the same text."""
+        def rd(*parts):
+            try:
+                return open(os.path.join(build.REPO, *parts), encoding="latin-1").read()
+            except OSError:
+                return ""
+        want_rf = ("{ int read = 0; while (read < max_size) { if (::fread(&buf[read], sizeof(char), 1, _file) == 1) { // discard cr to fix source "
+                   "formated msdos if (buf[read] == '\\r') continue; if (buf[read++] != '\\n') continue; } break; } return read; }")
+        want_sr = ("{ int c = 0; std::string::iterator p = _text.begin() + _pos; while (p != _text.end() && c < max_size) { ++_pos; // discard cr to "
+                   "fix source formated msdos if (*p != '\\r') buf[c++] = *p; if (*p == '\\n') break; ++p; } return c; }")
+        got = {
+            "apps/read_file.cpp:ReadFile::read": (func_body(rd("apps", "read_file.cpp"), r"int\s+ReadFile::read\s*\("), want_rf),
+            "blocc/statement_include.cpp:ReadFile::read": (func_body(rd("blocc", "statement_include.cpp"), r"int\s+read\s*\(\s*bloc::Parser"), want_rf),
+            "blocc/string_reader.cpp:StringReader::read": (func_body(rd("blocc", "string_reader.cpp"), r"int\s+StringReader::read\s*\("), want_sr),
+        }
+        for site, (have, want) in got.items():
+            if have != want:
+                self.broken_ties.append("extractor: %s is no longer the text the Lean reader was transcribed from: %r" % (site, (have or "")[:300]))
+        body = func_body(rd("blocc", "readstdin.c"), r"int\s+bloc_readstdin\s*\(") or ""
+        if "while (len < maxlen && (chr = getchar()) != EOF) { buf[len++] = (char) chr; if (chr == '\\n') break; }" not in body:
+            self.broken_ties.append("extractor: blocc/readstdin.c:bloc_readstdin is no longer the loop the Lean stdinCall was transcribed from")
 
     # ------------------------------------------------------------ cases
     def texts(self):
@@ -210,6 +343,9 @@ class C13(Check):
             T.append(("bytes%d" % i, "".join(chr(self.rng.choice([self.rng.randint(lo, 255), self.rng.choice(b'"\\/*#\n\r <=u8'), self.rng.randint(lo, 127)])) for _ in range(k))))
         for i, s in enumerate(NUL_TEXTS):
             T.append(("nul%d" % i, s))
+        # C13R2: the long-line programs of the path families, at token level too (readers: -, sr, rf, lines:1023)
+        for nm, a, _b, _e in edge_programs(quick):
+            T.append(("edge_" + nm, a))
         return T
 
     def readers_for(self, name, text):
@@ -217,7 +353,7 @@ class C13(Check):
         quick = self.tier == "quick"
         n = len(text)
         R = ["-", "sr", "rf", "lines:1023"]
-        if n <= 1:
+        if n <= 1 or name.startswith("edge_"):
             return R
         short = n <= 80
         R += ["lines:%d" % m for m in ((4, 9) if short else (16, 200))]
@@ -273,12 +409,148 @@ class C13(Check):
                     # `rf` = apps/read_file.cpp on a FILE*: same discipline as StringReader, hence the same model reader
                     mline = "tok %s sr" % h if r == "rf" else line
                     cases.append(Case("c%d" % n, mline, line, {"text": name + "/" + vn, "reader": r, "len": len(t)}))
-        self.stats["cases"] = n
+        cases += self.reader_cases()
+        cases += self.path_cases()
+        self.stats["cases"] = len(cases)
         self.stats["texts"] = len({c.meta["text"] for c in cases})
         return cases
 
+    # ------------------------------------------------------------ C13R2: chunk level (every read() call)
+    def reader_cases(self):
+        """`rdc`: the chunk returned by EVERY call of StringReader::read / apps ReadFile::read (library) against the call-by-call
+        Lean transcriptions `stringReader` / `fileReader`; the transcriptions of the include reader, of bloc_readstdin and of the
+        readline line server are evaluated on the same files against the Spec predicate `Delivers` (they have no callable
+        C++ entry: they are tied through their real paths, see path_cases)."""
+        rng = self.rng
+        files = []
+        for mx in (1, 2, 3, 4, 7, 16, BUF):
+            for ln in (0, 1, mx - 1, mx, mx + 1, 2 * mx - 1, 2 * mx, 2 * mx + 1, 3 * mx):
+                if ln < 0:
+                    continue
+                line = "".join(chr(97 + (i % 26)) for i in range(ln))
+                for tail in ("", "\n", "\r\n", "\r", "\nX", "\r\nX\r", "\n\n"):
+                    files.append((mx, line + tail))
+                if ln >= 2:
+                    files.append((mx, line[:ln - 1] + "\r" + line[ln - 1:] + "\n"))     # CR right before the boundary byte
+                    files.append((mx, line[:1] + "\r\r" + line[1:]))
+        for _ in range(150 if self.tier == "quick" else 2000):
+            mx = rng.choice([1, 2, 3, 5, 8, BUF])
+            n = rng.choice([0, 1, 2, 5, 9, 17, 40, 300, 2500]) if mx != BUF else rng.choice([1022, 1023, 1024, 2046, 2047, 3000, 5000])
+            alphabet = rng.choice(["ab\n\r", "abcdefgh\n", "a\r", "\n\r", "ab\n\r\x00\xff", "abcdefghijklmnopqrstuvwxyz" * 4 + "\n\r"])
+            files.append((mx, "".join(rng.choice(alphabet) for _ in range(n))))
+        cases = []
+        seen = set()
+        for mx, t in files:
+            for rd in ("sr", "rf", "inc", "stdin", "rl"):
+                if (mx, t, rd) in seen:
+                    continue
+                seen.add((mx, t, rd))
+                line = "rdc %s %d %s" % (rd, mx, hx(t))
+                # the three transcriptions of CR-dropping byte loops are compared with BOTH library readers that can be called
+                impl = "rdc %s %d %s" % ("rf" if rd == "inc" else rd, mx, hx(t)) if rd in ("sr", "rf", "inc") else "rdc sr 1 "
+                cases.append(Case("r%d" % len(cases), line.rstrip(), impl.rstrip(), {"kind": "rdc", "text": "reader_" + rd, "reader": rd, "max": mx, "len": len(t)}))
+        self.stats["reader_cases"] = len(cases)
+        return cases
+
+    # ------------------------------------------------------------ C13R2: every path by which source text reaches the scanner
+    PATH_OPS = 27
+
+    def path_cases(self):
+        quick = self.tier == "quick"
+        progs = edge_programs(quick)
+        self.tmpdir = tempfile.mkdtemp(prefix="blocv-c13-", dir="/var/tmp")
+        # phase 1: what the MODEL readers make of each text (chunk sizes at 1023 + concatenation + finding region)
+        q = []
+        for i, (nm, a, b, e) in enumerate(progs):
+            for rd in ("inc", "sr", "rf", "stdin", "rl"):
+                q.append("p%d_%s rdp %s %s" % (i, rd, rd, hx(a)))
+        ans = run.run_driver([ln.rstrip() for ln in q])
+        if "#driver-error" in ans:
+            self.broken_ties.append("driver: " + ans["#driver-error"][-400:])
+        cases = []
+        self.cli_jobs = []
+        for i, (nm, a, b, e) in enumerate(progs):
+            got = {rd: ans.get("p%d_%s" % (i, rd), "") for rd in ("inc", "sr", "rf", "stdin", "rl")}
+            m = re.match(r"^model=([0-9,]+|-)/([0-9a-f]*)( kf=\S+)?$", got["inc"])
+            if not m:
+                self.broken_ties.append("driver: no usable answer to rdp inc for %s: %r" % (nm, got["inc"][:200]))
+                continue
+            if got["sr"] != got["inc"] or got["rf"] != got["inc"]:
+                self.broken_ties.append("model: stringReader / fileReader / includeReader disagree on %s (contradicts *_eq_lineReader)" % nm)
+            sizes, flat = m.group(1), m.group(2)
+            # interactive: texts without CR / TAB whose last line is terminated (readline and bloc_readstdin then serve the same chunks)
+            inter = "\r" not in a and "\t" not in a and a.endswith("\n") and got["stdin"] == got["rl"] and got["stdin"].startswith("model=")
+            mi = re.match(r"^model=([0-9,]+|-)/([0-9a-f]*)", got["stdin"]) if inter else None
+            cid = "q%d" % i
+            path = os.path.join(self.tmpdir, "%s.bloc" % cid)
+            ops = ["new 0 t", "mkfile %s %s" % (hx(path), hx(a)), "parse 0 0 %s" % hx('include "%s";' % path), "run 0", "out 0",
+                   "new 1 t", "parsef 1 1 %s %s" % (flat, sizes), "run 1", "out 1",
+                   "new 2 t", "parsef 2 2 %s sr" % hx(b if b is not None else "print 0;"), "run 2", "out 2",
+                   "new 3", "capi 3 %s" % hx(a), "out 3",
+                   "new 4 t", "parsef 4 4 %s sr" % hx(a), "run 4", "out 4",
+                   "new 5 t", "parsef 5 5 %s rf" % hx(a), "run 5", "out 5",
+                   "new 6 t", ("stepf 6 %s %s" % (mi.group(2), mi.group(1))) if mi else "stepf 6 %s sr" % hx("print 0;"), "out 6"]
+            assert len(ops) == self.PATH_OPS
+            c = Case(cid, "rdp inc %s" % hx(a), "|".join(ops), {"kind": "path", "text": "path_" + re.sub(r"[_\d]+.*$", "", nm), "name": nm, "reader": "paths",
+                                                                "len": len(a), "has_b": b is not None, "expect": e, "inter": bool(mi), "a": a})
+            cases.append(c)
+            if i % (3 if quick else 1) == 0 or nm.startswith(("deg_", "mlit_")):
+                self.cli_jobs.append(c)
+        self.run_cli(self.cli_jobs)
+        self.stats["path_programs"] = len(cases)
+        return cases
+
+    def run_cli(self, jobs):
+        """the REAL executable <impl build>/apps/bloc: `bloc FILE`, `bloc -` (stdin), `bloc -i` (interactive loop)"""
+        self.cli = {}
+        try:
+            d = build.impl_build()
+        except build.BuildError as e:
+            self.broken_ties.append("build: %s: the command-line paths cannot be exercised" % e.what)
+            return
+        exe = os.path.join(d, "apps", "bloc")
+        if not os.path.exists(exe):
+            self.broken_ties.append("build: %s not built: the command-line paths cannot be exercised" % exe)
+            return
+        env = build.sanitizer_env()
+        env["LD_LIBRARY_PATH"] = os.path.join(d, "blocc")
+        env["TERM"] = "dumb"
+
+        def one(c):
+            a = c.meta["a"].encode("latin-1")
+            fpath = os.path.join(self.tmpdir, c.cid + "_cli.bloc")
+            with open(fpath, "wb") as f:
+                f.write(a)
+            res = {}
+            for mode, argv, inp in (("file", [fpath], b""), ("stdin", ["-"], a), ("inter", ["-i"], a)):
+                if mode == "inter" and not c.meta["inter"]:
+                    continue
+                try:
+                    p = subprocess.run([exe] + argv, input=inp, stdout=subprocess.PIPE, stderr=subprocess.PIPE, env=env, timeout=60, cwd=self.tmpdir)
+                    res[mode] = (p.returncode, p.stdout, p.stderr)
+                except subprocess.TimeoutExpired:
+                    res[mode] = ("timeout", b"", b"")
+            self.cli[c.cid] = res
+
+        with ThreadPoolExecutor(max_workers=8) as ex:
+            list(ex.map(one, jobs))
+        self.stats["cli_runs"] = sum(len(v) for v in self.cli.values())
+
+    def step_correspondence(self):
+        self.check_rule_list()
+        try:
+            Check.step_correspondence(self)
+        finally:
+            if getattr(self, "tmpdir", None):
+                shutil.rmtree(self.tmpdir, ignore_errors=True)
+
     # ------------------------------------------------------------ judge
     def judge(self, c, iraw, m, stderr):
+        kind = c.meta.get("kind")
+        if kind == "rdc":
+            return self.judge_rdc(c, iraw, m, stderr)
+        if kind == "path":
+            return self.judge_path(c, iraw, m, stderr)
         iout = iraw
         mout, spec, kf = m.get("model"), m.get("spec"), m.get("kf")
         fam = re.sub(r"\d+", "", c.meta["text"].split("/")[0]) + "/" + ("aligned" if not kf else kf.split(".")[1])
@@ -294,6 +566,24 @@ class C13(Check):
         if iout != mout:
             return self.record_violation("implementation differs from the model (per-chunk scanner)"
                                          + ("" if iout == spec else " and from the specification"), c, iout, m, stderr)
+        note = m.get("note")
+        if note:
+            # C13R2 section 2: the reader delivered exactly two chunks [a, b]; `safeSplit a b` as decided by the Lean predicate
+            safe, raw = note.split(":")
+            ss = self.stats.setdefault("safesplit", {"safe_equal": 0, "unsafe_differ": 0, "unsafe_equal": 0, "iff_tested": 0})
+            if kf != KF_NUL:
+                ss["iff_tested"] += 1
+                if (safe == "safe") != (raw == "eq"):
+                    return self.record_violation("model: safeSplit a b is not equivalent to lexChunks [a,b] = lexWhole (a++b) on this pair "
+                                                 "(the direction of the iff that is only tested fails)", c, iout, m, stderr)
+                cr_reader = c.meta["reader"] in ("sr", "rf") and "\r" in bytes.fromhex(c.model_line.split(" ")[1]).decode("latin-1")
+                if safe == "safe" and not cr_reader:
+                    if iout != spec:
+                        return self.record_violation("SafeSplit holds for this cut, yet the library's token stream differs from that of the whole text "
+                                                     "(contradicts lex_token_aligned)", c, iout, m, stderr)
+                    ss["safe_equal"] += 1
+                elif safe == "unsafe":
+                    ss["unsafe_equal" if iout == spec else "unsafe_differ"] += 1
         if iout == spec:
             d = self.stats.setdefault("agree_spec", {})
             d[kf or "aligned"] = d.get(kf or "aligned", 0) + 1
@@ -309,3 +599,171 @@ class C13(Check):
         cur = self.known_hits.get(kf)
         if cur is None or len(c.model_line) < len(cur["example"]):
             self.known_hits[kf] = {"what": entry["what"], "example": c.model_line, "impl": iout}
+
+    def finish(self):
+        ss = self.stats.get("safesplit")
+        if ss:
+            un = ss["unsafe_differ"] + ss["unsafe_equal"]
+            # how tight the predicate is at the level the parser sees (spaces/comments dropped, literal pieces merged):
+            # share of the unsafe cuts on which Parser::pop()'s stream really differs from the whole-text stream
+            ss["unsafe_that_differ_ratio"] = round(ss["unsafe_differ"] / un, 4) if un else None
+        return super().finish()
+
+    # ------------------------------------------------------------ C13R2 judges
+    def judge_rdc(self, c, iraw, m, stderr):
+        d = self.stats.setdefault("families", {})
+        d[c.meta["text"]] = d.get(c.meta["text"], 0) + 1
+        mout, spec = m.get("model"), m.get("spec")
+        if mout is None or not mout.startswith("chunks="):
+            return self.record_violation("model gave no answer", c, iraw, m)
+        self.distinct.add((c.model_line,))
+        if spec != "eq":
+            return self.record_violation("the model's %s reader does not deliver every byte (Spec.Delivers: concatenation = text minus what the reader "
+                                         "removes, every chunk non-empty and within the buffer)" % c.meta["reader"], c, iraw, m, stderr)
+        if c.meta["reader"] in ("sr", "rf", "inc"):
+            if not iraw.startswith("chunks="):
+                return self.record_violation("reader crashed / harness error", c, iraw, m, stderr)
+            if iraw != mout:
+                return self.record_violation("read() returns other chunks than the call-by-call model reader (%s)" % c.meta["reader"], c, iraw, m, stderr)
+
+    @staticmethod
+    def inter_lines(out):
+        """the lines a program printed in `bloc -i`: -> (lines before the first error, first error message or None, all clean?)"""
+        lines = out.split(b"\n")
+        if lines and lines[-1] == b"":
+            lines.pop()
+        lines = lines[2:]                     # version header, "Type help…"
+        res = []
+        for variant in (0, 1):
+            got, err = [], None
+            for ln in lines:
+                if variant == 0:
+                    if ln.startswith((b">>> ", b"... ")) or ln in (b">>>", b"..."):
+                        continue              # prompt + readline's echo of the piped line
+                else:
+                    ln = re.sub(rb"^(?:>>> |\.\.\. )+", b"", ln)
+                if ln.startswith(b"Elapsed: ") or ln == b"":
+                    continue
+                mm = re.match(rb"^Error(?: \(\d+:\d+\))?: (.*)$", ln)
+                if mm:
+                    err = mm.group(1)
+                    break
+                got.append(ln)
+            res.append((got, err))
+        return res
+
+    def judge_path(self, c, iraw, m, stderr):
+        name = c.meta["name"]
+        kf = m.get("kf")
+        fam = c.meta["text"] + "/" + ("aligned" if not kf else kf.split(".")[1])
+        d = self.stats.setdefault("families", {})
+        d[fam] = d.get(fam, 0) + 1
+
+        def V(what):
+            return self.record_violation(what + " [program %s, %d bytes]" % (name, c.meta["len"]), c, iraw[:4000], m, stderr)
+
+        if iraw.startswith("crash") or iraw.endswith("diverges"):
+            return V("a reader path crashed / diverged")
+        parts = iraw.split("|")
+        if len(parts) != self.PATH_OPS:
+            return V("harness error on a reader path (%d answers)" % len(parts))
+        self.distinct.add((c.model_line,))
+        ref = parts[6:9]
+        rm = re.match(r"^(?:ok|perr (\d+)(?: (\d+:\d+))?(?: msg=([0-9a-f]*))?)$", ref[0])
+        if not rm:
+            return V("the library fed with the model reader's chunks gave no usable answer: %s" % ref[0][:100])
+        ref_ok = ref[0] == "ok"
+        code, pos, msg = rm.group(1), rm.group(2), bytes.fromhex(rm.group(3) or "")
+        errline = (b"Error (%s): %s\n" % (pos.encode(), msg)) if pos else b""
+        pd = self.stats.setdefault("paths", {})
+
+        def seen(path):
+            pd[path] = pd.get(path, 0) + 1
+
+        # 1. include "file"; (the private ReadFile of statement_include.cpp)
+        seen("include")
+        if ref_ok:
+            if parts[2] != "ok" or parts[3] != ref[1] or parts[4] != ref[2]:
+                return V("`include \"file\";` behaves differently from the library fed with the chunks of the model's includeReader: include -> %s %s %s, "
+                         "model chunks -> %s %s %s" % (parts[2], parts[3], parts[4][:200], ref[0], ref[1], ref[2][:200]))
+        else:
+            if not parts[2].startswith("perr") or parts[4] != "out=" + hx(errline):
+                return V("`include \"file\";` fails differently from the library fed with the chunks of the model's includeReader: include -> %s %s, "
+                         "model chunks -> %s" % (parts[2], parts[4][:300], ref[0]))
+        # 2. the C API (bloc_parse_executable: StringReader on a const char*)
+        if "\x00" not in c.meta["a"]:
+            seen("capi")
+            if ref_ok:
+                good = parts[14].split(" ")[0:2] == ref[1].split(" ")[0:2] and parts[15] == ref[2]
+            else:
+                good = parts[14] in ("perr %s %s" % (code, pos or "0:0"), "perr %s" % code)
+            if not good:
+                return V("bloc_parse_executable behaves differently from the library fed with the chunks of the model's stringReader: capi -> %s %s, "
+                         "model chunks -> %s %s %s" % (parts[14], parts[15][:200], ref[0], ref[1], ref[2][:200]))
+        # 3. Parser::parse over the library's StringReader / apps ReadFile
+        for path, k in (("parse_sr", 17), ("parse_rf", 21)):
+            seen(path)
+            if parts[k:k + 3] != ref and not (not ref_ok and parts[k] == ref[0]):
+                return V("Parser::parse over %s behaves differently from the library fed with the model reader's chunks: %s vs %s"
+                         % ("StringReader" if path == "parse_sr" else "apps ReadFile", [x[:200] for x in parts[k:k + 3]], [x[:200] for x in ref]))
+        # 4. the real executable
+        cli = getattr(self, "cli", {}).get(c.cid, {})
+        for mode in ("file", "stdin"):
+            if mode not in cli:
+                continue
+            seen("bloc_" + mode)
+            rc, out, err = cli[mode]
+            if ref_ok and ref[1] == "ok-":
+                good = rc == 0 and out == bytes.fromhex(ref[2][4:])
+            elif ref_ok:
+                good = rc not in (0, "timeout") and b"Error" in err
+            else:
+                good = rc not in (0, "timeout") and out == b"" and err == (errline if pos else b"Error: %s\n" % msg)
+            if not good:
+                return V("`bloc %s` behaves differently from the library fed with the chunks of the model's fileReader: rc=%s stdout=%r stderr=%r, "
+                         "model chunks -> %s %s %s" % ("FILE" if mode == "file" else "-", rc, out[:200], err[:300], ref[0], ref[1], ref[2][:200]))
+        if "inter" in cli and c.meta["inter"]:
+            seen("bloc_interactive")
+            rc, out, err = cli["inter"]
+            im = re.match(r"^(ok-|ok .*|rerr .*|perr (\d+)(?: (\d+:\d+))?(?: msg=([0-9a-f]*))?)$", parts[25])
+            want_lines = bytes.fromhex(parts[26][4:]).split(b"\n")
+            if want_lines and want_lines[-1] == b"":
+                want_lines.pop()
+            want_err = None
+            if im and parts[25].startswith("perr"):
+                want_err = bytes.fromhex(im.group(4) or "")
+            ok_any = False
+            for got, gerr in self.inter_lines(out):
+                if parts[25].startswith("rerr"):
+                    ok_any = ok_any or (got[:len(want_lines)] == want_lines[:len(got)] and gerr is not None)
+                else:
+                    ok_any = ok_any or (got == want_lines and gerr == want_err)
+            if not im or rc != 0 or not ok_any:
+                return V("`bloc -i` behaves differently from the interactive loop fed with the chunks of the model's stdinReader / readline server: "
+                         "rc=%s stdout=%r, model chunks -> %s %s" % (rc, out[-400:], parts[25], parts[26][:200]))
+        # 5. the whole-text Spec for program behaviour: the same tokens on short lines / the output computed by the generator
+        verdicts = []
+        if c.meta["has_b"]:
+            verdicts.append(ref_ok and parts[10] == "ok" and ref[1] == parts[11] and ref[2] == parts[12])
+            if parts[10] != "ok":
+                return V("generator: the short-line layout of the program does not compile: %s" % parts[10])
+        if c.meta["expect"] is not None:
+            verdicts.append(ref_ok and ref[1] == "ok-" and ref[2] == "out=" + hx(c.meta["expect"]))
+        if not verdicts:
+            pd["no_spec_reference"] = pd.get("no_spec_reference", 0) + 1
+            return
+        if all(verdicts):
+            a = self.stats.setdefault("agree_spec", {})
+            a["path/" + (kf or "aligned")] = a.get("path/" + (kf or "aligned"), 0) + 1
+            return
+        if not kf:
+            return V("a program whose lines all fit the reader's buffer behaves differently from its short-line layout / computed output: %s %s %s"
+                     % (ref[0], ref[1], ref[2][:300]))
+        entry = next((f for f in self.findings if f["id"] == kf and f.get("status", "known") == "known"), None)
+        if entry is None:
+            return V("defect region %s is not a listed known finding" % kf)
+        dd = self.stats.setdefault("differ_from_spec", {})
+        dd["path/" + kf] = dd.get("path/" + kf, 0) + 1
+        cur = self.known_hits.get(kf)
+        if cur is None:
+            self.known_hits[kf] = {"what": entry["what"], "example": c.model_line[:200], "impl": (ref[0] + " " + ref[2])[:200]}
